@@ -97,7 +97,7 @@ func init() {
 		fmt.Sscanf(arg, "%d", &k)
 		sc.stepCrashFresh(k)
 	})
-	registerDirected(
+	registerDirectedFor("C16",
 		// D14: a swap-in requester restarted while waiting for the agreement
 		directed{"in_sender", "btc", []string{"start", "settle"}},
 		directed{"in_sender", "lbtc", []string{"start", "restart", "settle"}},
